@@ -60,7 +60,8 @@ theorem rect_ordered (m : Matrix) (r : Rect) :
   constructor <;> grind
 
 /-- The glyph `render_char`/`LTChar` build at pen position `(x, y)` of the line is the glyph the
-text model paints with `Tm = translate(x, y) × Tlm`. -/
+text model paints with `Tm = translate(x, y) × Tlm` — horizontal and vertical writing, simple,
+Type 3 and CID fonts. -/
 theorem ltchar_eq_observe (f : Font) (M ctm : Matrix) (gs : GS) (x y : Rat) (c : Nat)
     (h1 : gs.ctm = ctm) :
     ltchar (translate_matrix (mult_matrix M ctm) (x, y)) f gs.Tfs (rs_scaling gs.Th) gs.Trise c gs.fill
@@ -68,73 +69,141 @@ theorem ltchar_eq_observe (f : Font) (M ctm : Matrix) (gs : GS) (x y : Rat) (c :
   subst h1
   rw [translate_mult]
   generalize mult_matrix (translate_matrix M (x, y)) gs.ctm = T
-  have hadv : ltchar_adv (charWidth f c) gs.Tfs (rs_scaling gs.Th) = f.width c / 1000 * gs.Tfs * (gs.Th / 100) := by
-    simp only [ltchar_adv, charWidth, char_width_scaled, font_hscale, rs_scaling]; grind
-  have hbox : ltchar_bbox_h (ltchar_descent (font_get_descent f.descent font_vscale) gs.Tfs) gs.Trise
-        (f.width c / 1000 * gs.Tfs * (gs.Th / 100)) gs.Tfs
-      = (0, f.descent / 1000 * gs.Tfs + gs.Trise, f.width c / 1000 * gs.Tfs * (gs.Th / 100),
-         f.descent / 1000 * gs.Tfs + gs.Trise + gs.Tfs) := by
-    simp only [ltchar_bbox_h, ltchar_descent, font_get_descent, font_vscale, Prod.mk.injEq]
-    refine ⟨trivial, ?_, trivial, ?_⟩ <;> grind
   unfold ltchar observe
-  simp only [hadv, hbox]
-  have ho := rect_ordered T (0, f.descent / 1000 * gs.Tfs + gs.Trise, f.width c / 1000 * gs.Tfs * (gs.Th / 100),
-         f.descent / 1000 * gs.Tfs + gs.Trise + gs.Tfs)
-  generalize apply_matrix_rect T _ = R at ho ⊢
-  obtain ⟨x0, y0, x1, y1⟩ := R
-  simp only at ho
-  simp [ho.1, ho.2]
+  by_cases hv : f.vertical = true
+  · simp only [hv, if_true]
+    have hadv : ltchar_adv_v (charWidth f c) gs.Tfs = f.width c * f.hscale * gs.Tfs := by
+      simp only [ltchar_adv_v, charWidth, char_width_scaled]
+    have hvy : ltchar_vy (f.disp c).2 gs.Tfs = (1000 - (f.disp c).2) / 1000 * gs.Tfs := by
+      simp only [ltchar_vy]; grind
+    simp only [hadv, hvy, ltchar_bbox_v]
+    have hvx : ltcharVx f gs.Tfs c = posVx f gs.Tfs c := by
+      unfold ltcharVx posVx
+      cases (f.disp c).1 with
+      | none => simp only [ltchar_vx_default]; grind
+      | some vx => simp only [ltchar_vx]; grind
+    rw [hvx]
+    generalize posVx f gs.Tfs c = VX
+    have ho := rect_ordered T (-VX, (1000 - (f.disp c).2) / 1000 * gs.Tfs + gs.Trise + f.width c * f.hscale * gs.Tfs,
+      -VX + gs.Tfs, (1000 - (f.disp c).2) / 1000 * gs.Tfs + gs.Trise)
+    generalize apply_matrix_rect T _ = R at ho ⊢
+    obtain ⟨x0, y0, x1, y1⟩ := R
+    simp only at ho
+    simp [ho.1, ho.2]
+  · have hv' : f.vertical = false := by simpa using hv
+    simp only [hv', Bool.false_eq_true, if_false]
+    have hadv : ltchar_adv (charWidth f c) gs.Tfs (rs_scaling gs.Th) = f.width c * f.hscale * gs.Tfs * (gs.Th / 100) := by
+      simp only [ltchar_adv, charWidth, char_width_scaled, rs_scaling]; grind
+    have hbox : ltchar_bbox_h (ltchar_descent (font_get_descent f.descent f.vscale) gs.Tfs) gs.Trise
+          (f.width c * f.hscale * gs.Tfs * (gs.Th / 100)) gs.Tfs
+        = (0, f.descent * f.vscale * gs.Tfs + gs.Trise, f.width c * f.hscale * gs.Tfs * (gs.Th / 100),
+           f.descent * f.vscale * gs.Tfs + gs.Trise + gs.Tfs) := by
+      simp only [ltchar_bbox_h, ltchar_descent, font_get_descent]
+    simp only [hadv, hbox]
+    have ho := rect_ordered T (0, f.descent * f.vscale * gs.Tfs + gs.Trise, f.width c * f.hscale * gs.Tfs * (gs.Th / 100),
+           f.descent * f.vscale * gs.Tfs + gs.Trise + gs.Tfs)
+    generalize apply_matrix_rect T _ = R at ho ⊢
+    obtain ⟨x0, y0, x1, y1⟩ := R
+    simp only at ho
+    simp [ho.1, ho.2]
 
-/-! ### strings: `render_string_horizontal` against 9.4.4 -/
+theorem ltchar_adv_eq (matrix : Matrix) (f : Font) (fs sc rise : Rat) (c : Nat) (col : Option Color) :
+    (ltchar matrix f fs sc rise c col).adv =
+      if f.vertical then ltchar_adv_v (charWidth f c) fs else ltchar_adv (charWidth f c) fs sc := by
+  unfold ltchar; simp only
 
-/-- Pen advance of the code: `x += adv; x += charspace; if cid == 32 and wordspace: x += wordspace`
+/-! ### strings: `render_string_horizontal` / `render_string_vertical` against 9.4.4 -/
+
+/-- The word spacing `render_string` hands on: none for multi-byte fonts. -/
+def wsOf (f : Font) (gs : GS) : Rat := if f.multibyte then 0 else rs_wordspace gs.Tw (rs_scaling gs.Th)
+
+/-- Horizontal pen advance: `x += adv; x += charspace; if cid == 32 and wordspace: x += wordspace`
 is the displacement `tx = (w0·Tfs + Tc + Tw)·Th` of 9.4.4. -/
-theorem pen_advance (f : Font) (gs : GS) (x : Rat) (c : Nat) :
-    (if c = 32 ∧ rs_wordspace gs.Tw (rs_scaling gs.Th) ≠ 0 then
-        x + ltchar_adv (charWidth f c) gs.Tfs (rs_scaling gs.Th) + rs_charspace gs.Tc (rs_scaling gs.Th)
-          + rs_wordspace gs.Tw (rs_scaling gs.Th)
+theorem pen_advance (f : Font) (gs : GS) (x : Rat) (c : Nat) (hv : f.vertical = false) :
+    (if c = 32 ∧ wsOf f gs ≠ 0 then
+        x + ltchar_adv (charWidth f c) gs.Tfs (rs_scaling gs.Th) + rs_charspace gs.Tc (rs_scaling gs.Th) + wsOf f gs
       else x + ltchar_adv (charWidth f c) gs.Tfs (rs_scaling gs.Th) + rs_charspace gs.Tc (rs_scaling gs.Th))
-    = x + (f.width c / 1000 * gs.Tfs + gs.Tc + (if c = 32 then gs.Tw else 0)) * (gs.Th / 100) := by
-  simp only [ltchar_adv, charWidth, char_width_scaled, font_hscale, rs_scaling, rs_charspace, rs_wordspace]
-  by_cases hc : c = 32
-  · by_cases hw : gs.Tw * (gs.Th * (1 / 100)) = 0
-    · simp only [hc, hw, ne_eq, not_true_eq_false, and_false, if_false, if_true] <;> grind
-    · simp only [hc, hw, ne_eq, not_false_eq_true, and_self, if_true] <;> grind
-  · simp only [hc, false_and, if_false] <;> grind
+    = x + (displacement f gs c).1 ∧ (displacement f gs c).2 = 0 := by
+  simp only [displacement, hv, Bool.false_eq_true, if_false, and_true]
+  simp only [wsOf, ltchar_adv, charWidth, char_width_scaled, rs_scaling, rs_charspace, rs_wordspace]
+  by_cases hm : f.multibyte = true
+  · simp only [hm, if_true, ne_eq, not_true_eq_false, and_false, if_false, Bool.true_eq_false]; grind
+  · have hm' : f.multibyte = false := by simpa using hm
+    simp only [hm', Bool.false_eq_true, if_false, and_true]
+    by_cases hc : c = 32
+    · by_cases hw : gs.Tw * (gs.Th * (1 / 100)) = 0
+      · simp only [hc, hw, ne_eq, not_true_eq_false, and_false, if_false, if_true] <;> grind
+      · simp only [hc, hw, ne_eq, not_false_eq_true, and_self, if_true] <;> grind
+    · simp only [hc, false_and, if_false] <;> grind
 
-theorem renderCodes_showCodes (f : Font) (M : Matrix) (gs : GS) (y : Rat) (codes : List Nat) :
+/-- Vertical pen advance (composite fonts only): `ty = w1·Tfs + Tc`, not scaled by Th. -/
+theorem pen_advance_v (f : Font) (gs : GS) (y : Rat) (c : Nat) (hv : f.vertical = true) (hm : f.multibyte = true) :
+    (if c = 32 ∧ wsOf f gs ≠ 0 then
+        y + ltchar_adv_v (charWidth f c) gs.Tfs + rs_charspace_v gs.Tc (rs_scaling gs.Th) + wsOf f gs
+      else y + ltchar_adv_v (charWidth f c) gs.Tfs + rs_charspace_v gs.Tc (rs_scaling gs.Th))
+    = y + (displacement f gs c).2 ∧ (displacement f gs c).1 = 0 := by
+  simp only [displacement, hv, if_true, and_true]
+  simp only [wsOf, ltchar_adv_v, charWidth, char_width_scaled, rs_charspace_v, hm, if_true, ne_eq,
+    not_true_eq_false, and_false, if_false, Bool.true_eq_false]
+  grind
+
+theorem renderCodes_showCodes (f : Font) (M : Matrix) (gs : GS) (y : Rat) (codes : List Nat) (hv : f.vertical = false) :
     ∀ x : Rat,
     showCodes f gs (translate_matrix M (x, y)) codes =
       (translate_matrix M
         ((renderCodes f (mult_matrix M gs.ctm) gs.Tfs (rs_scaling gs.Th) (rs_charspace gs.Tc (rs_scaling gs.Th))
-            (rs_wordspace gs.Tw (rs_scaling gs.Th)) gs.Trise gs.fill y x codes).1, y),
+            (wsOf f gs) gs.Trise gs.fill y x codes).1, y),
        (renderCodes f (mult_matrix M gs.ctm) gs.Tfs (rs_scaling gs.Th) (rs_charspace gs.Tc (rs_scaling gs.Th))
-            (rs_wordspace gs.Tw (rs_scaling gs.Th)) gs.Trise gs.fill y x codes).2) := by
+            (wsOf f gs) gs.Trise gs.fill y x codes).2) := by
   induction codes with
   | nil => intro x; simp [showCodes, renderCodes]
   | cons c rest ih =>
     intro x
     simp only [showCodes, renderCodes]
-    rw [mult_translation, translate_translate]
     have hg := ltchar_eq_observe f M gs.ctm gs x y c rfl
-    have hadv : (ltchar (translate_matrix (mult_matrix M gs.ctm) (x, y)) f gs.Tfs (rs_scaling gs.Th) gs.Trise c gs.fill).adv
-        = ltchar_adv (charWidth f c) gs.Tfs (rs_scaling gs.Th) := by
-      unfold ltchar; simp only
-    rw [hadv, pen_advance f gs x c]
+    obtain ⟨hp, hz⟩ := pen_advance f gs x c hv
+    rw [mult_translation, translate_translate, hz]
+    rw [ltchar_adv_eq]
+    simp only [hv, Bool.false_eq_true, if_false]
+    rw [hp]
     have h0 : y + 0 = y := by grind
     rw [h0, ih]
     simp only [hg]
 
-/-- `TJ` arrays of numbers and strings. -/
+theorem renderCodesV_showCodes (f : Font) (M : Matrix) (gs : GS) (x : Rat) (codes : List Nat) (hv : f.vertical = true)
+    (hm : f.multibyte = true) :
+    ∀ y : Rat,
+    showCodes f gs (translate_matrix M (x, y)) codes =
+      (translate_matrix M (x,
+        (renderCodesV f (mult_matrix M gs.ctm) gs.Tfs (rs_scaling gs.Th) (rs_charspace_v gs.Tc (rs_scaling gs.Th))
+            (wsOf f gs) gs.Trise gs.fill x y codes).1),
+       (renderCodesV f (mult_matrix M gs.ctm) gs.Tfs (rs_scaling gs.Th) (rs_charspace_v gs.Tc (rs_scaling gs.Th))
+            (wsOf f gs) gs.Trise gs.fill x y codes).2) := by
+  induction codes with
+  | nil => intro y; simp [showCodes, renderCodesV]
+  | cons c rest ih =>
+    intro y
+    simp only [showCodes, renderCodesV]
+    have hg := ltchar_eq_observe f M gs.ctm gs x y c rfl
+    obtain ⟨hp, hz⟩ := pen_advance_v f gs y c hv hm
+    rw [mult_translation, translate_translate, hz]
+    rw [ltchar_adv_eq]
+    simp only [hv, if_true]
+    rw [hp]
+    have h0 : x + 0 = x := by grind
+    rw [h0, ih]
+    simp only [hg]
+
+/-- `TJ` arrays of numbers and strings, horizontal writing. -/
 theorem renderSeq_showSeq (f : Font) (M : Matrix) (gs : GS) (y : Rat) (seq : List Elem)
-    (hseq : ∀ e ∈ seq, e ≠ Elem.other) :
+    (hseq : ∀ e ∈ seq, e ≠ Elem.other) (hv : f.vertical = false) :
     ∀ x : Rat,
     showSeq f gs (translate_matrix M (x, y)) seq =
       some (translate_matrix M
         ((renderSeq f (mult_matrix M gs.ctm) gs.Tfs (rs_scaling gs.Th) (rs_charspace gs.Tc (rs_scaling gs.Th))
-            (rs_wordspace gs.Tw (rs_scaling gs.Th)) gs.Trise (rs_dxscale gs.Tfs (rs_scaling gs.Th)) gs.fill y x seq).1, y),
+            (wsOf f gs) gs.Trise (rs_dxscale gs.Tfs (rs_scaling gs.Th)) gs.fill y x seq).1, y),
        (renderSeq f (mult_matrix M gs.ctm) gs.Tfs (rs_scaling gs.Th) (rs_charspace gs.Tc (rs_scaling gs.Th))
-            (rs_wordspace gs.Tw (rs_scaling gs.Th)) gs.Trise (rs_dxscale gs.Tfs (rs_scaling gs.Th)) gs.fill y x seq).2) := by
+            (wsOf f gs) gs.Trise (rs_dxscale gs.Tfs (rs_scaling gs.Th)) gs.fill y x seq).2) := by
   induction seq with
   | nil => intro x; simp [showSeq, renderSeq]
   | cons e rest ih =>
@@ -142,7 +211,7 @@ theorem renderSeq_showSeq (f : Font) (M : Matrix) (gs : GS) (y : Rat) (seq : Lis
     have hrest : ∀ e ∈ rest, e ≠ Elem.other := fun e he => hseq e (List.mem_cons_of_mem _ he)
     cases e with
     | num n =>
-      simp only [showSeq, renderSeq]
+      simp only [showSeq, renderSeq, hv, Bool.false_eq_true, if_false]
       rw [mult_translation, translate_translate]
       have h0 : y + 0 = y := by grind
       have hx : x + -n / 1000 * gs.Tfs * (gs.Th / 100) = x - n * rs_dxscale gs.Tfs (rs_scaling gs.Th) := by
@@ -151,7 +220,38 @@ theorem renderSeq_showSeq (f : Font) (M : Matrix) (gs : GS) (y : Rat) (seq : Lis
       exact ih hrest _
     | str codes =>
       simp only [showSeq, renderSeq]
-      rw [renderCodes_showCodes]
+      rw [renderCodes_showCodes f M gs y _ hv]
+      simp only
+      rw [ih hrest]
+    | other => exact absurd rfl (hseq _ (List.mem_cons_self))
+
+/-- `TJ` arrays, vertical writing. -/
+theorem renderSeqV_showSeq (f : Font) (M : Matrix) (gs : GS) (x : Rat) (seq : List Elem)
+    (hseq : ∀ e ∈ seq, e ≠ Elem.other) (hv : f.vertical = true) (hm : f.multibyte = true) :
+    ∀ y : Rat,
+    showSeq f gs (translate_matrix M (x, y)) seq =
+      some (translate_matrix M (x,
+        (renderSeqV f (mult_matrix M gs.ctm) gs.Tfs (rs_scaling gs.Th) (rs_charspace_v gs.Tc (rs_scaling gs.Th))
+            (wsOf f gs) gs.Trise (rs_dxscale_v gs.Tfs (rs_scaling gs.Th)) gs.fill x y seq).1),
+       (renderSeqV f (mult_matrix M gs.ctm) gs.Tfs (rs_scaling gs.Th) (rs_charspace_v gs.Tc (rs_scaling gs.Th))
+            (wsOf f gs) gs.Trise (rs_dxscale_v gs.Tfs (rs_scaling gs.Th)) gs.fill x y seq).2) := by
+  induction seq with
+  | nil => intro y; simp [showSeq, renderSeqV]
+  | cons e rest ih =>
+    intro y
+    have hrest : ∀ e ∈ rest, e ≠ Elem.other := fun e he => hseq e (List.mem_cons_of_mem _ he)
+    cases e with
+    | num n =>
+      simp only [showSeq, renderSeqV, hv, if_true]
+      rw [mult_translation, translate_translate]
+      have h0 : x + 0 = x := by grind
+      have hy : y + -n / 1000 * gs.Tfs = y - n * rs_dxscale_v gs.Tfs (rs_scaling gs.Th) := by
+        simp only [rs_dxscale_v]; grind
+      rw [h0, hy]
+      exact ih hrest _
+    | str codes =>
+      simp only [showSeq, renderSeqV]
+      rw [renderCodesV_showCodes f M gs x _ hv hm]
       simp only
       rw [ih hrest]
     | other => exact absurd rfl (hseq _ (List.mem_cons_self))
@@ -583,24 +683,48 @@ theorem show_sim {env : Env} {m : MState} {s s' : SState} {t : Matrix × Matrix}
           simp [fontOf, hf]
       split at h
       · simp at h
-      · rename_i tm' gl' hshow
-        simp only [Option.some.injEq, Prod.mk.injEq] at h
-        obtain ⟨rfl, rfl⟩ := h
-        have hno := showSeq_no_other f s.gs seq _ _ hshow
-        rcases hlm : m.ts.linematrix with ⟨x, y⟩
-        have key := renderSeq_showSeq f m.ts.matrix s.gs y seq hno x
-        rw [← hg.ctm, ← hR.dctm, ← hg.tfs, ← hg.th, ← hg.tc, ← hg.tw, ← hg.trise, ← hg.fill] at key
-        simp only at hshow
-        rw [h2, hlm, key] at hshow
-        simp only [Option.some.injEq, Prod.mk.injEq] at hshow
-        obtain ⟨rfl, rfl⟩ := hshow
-        unfold doShow
-        simp only [hfont]
-        unfold renderString
-        simp only [hlm]
-        refine ⟨⟨?_, hR.dctm, hR.stack, ?_, hR.res, hR.args, hR.fuel⟩, by first | rfl | trivial⟩
-        · exact { hg with }
-        · exact ⟨h1, rfl⟩
+      · rename_i hvm
+        split at h
+        · simp at h
+        · rename_i tm' gl' hshow
+          simp only [Option.some.injEq, Prod.mk.injEq] at h
+          obtain ⟨rfl, rfl⟩ := h
+          have hno := showSeq_no_other f s.gs seq _ _ hshow
+          rcases hlm : m.ts.linematrix with ⟨x, y⟩
+          by_cases hv : f.vertical = true
+          · have hm : f.multibyte = true := by
+              cases hmb : f.multibyte with
+              | true => rfl
+              | false => simp [hv, hmb] at hvm
+            have key := renderSeqV_showSeq f m.ts.matrix s.gs x seq hno hv hm y
+            simp only [wsOf] at key
+            rw [← hg.ctm, ← hR.dctm, ← hg.tfs, ← hg.th, ← hg.tc, ← hg.tw, ← hg.trise, ← hg.fill] at key
+            simp only at hshow
+            rw [h2, hlm, key] at hshow
+            simp only [Option.some.injEq, Prod.mk.injEq] at hshow
+            obtain ⟨rfl, rfl⟩ := hshow
+            unfold doShow
+            simp only [hfont]
+            unfold renderString
+            simp only [hlm, hv, if_true]
+            refine ⟨⟨?_, hR.dctm, hR.stack, ?_, hR.res, hR.args, hR.fuel⟩, by first | rfl | trivial⟩
+            · exact { hg with }
+            · exact ⟨h1, rfl⟩
+          · have hv' : f.vertical = false := by simpa using hv
+            have key := renderSeq_showSeq f m.ts.matrix s.gs y seq hno hv' x
+            simp only [wsOf] at key
+            rw [← hg.ctm, ← hR.dctm, ← hg.tfs, ← hg.th, ← hg.tc, ← hg.tw, ← hg.trise, ← hg.fill] at key
+            simp only at hshow
+            rw [h2, hlm, key] at hshow
+            simp only [Option.some.injEq, Prod.mk.injEq] at hshow
+            obtain ⟨rfl, rfl⟩ := hshow
+            unfold doShow
+            simp only [hfont]
+            unfold renderString
+            simp only [hlm, hv', Bool.false_eq_true, if_false]
+            refine ⟨⟨?_, hR.dctm, hR.stack, ?_, hR.res, hR.args, hR.fuel⟩, by first | rfl | trivial⟩
+            · exact { hg with }
+            · exact ⟨h1, rfl⟩
 
 /-! ### well-typed operators, case by case -/
 
